@@ -13,12 +13,21 @@ FILES = ["zz_verif_common_test.go", "zz_verif_g01_test.go"]
 # Every clause of DnsFrontCore!V must produce at least one outcome of the
 # replayed tables (vacuity).
 WHYS = {"any", "deny", "aaaa", "canary", "health", "ddr", "ddr-empty", "lan-outside", "lan-a", "lan-aaaa",
-        "lan-blk", "lan-nx", "ptr-lease", "ptr-lease-off", "blk", "rdns-priv", "rdns-off", "fwd"}
+        "lan-blk", "lan-nx", "ptr-lease", "ptr-lease-off", "blk", "rdns-priv", "rdns-off", "fwd",
+        "lan-aaaa64", "fwd64-nx", "fwd64-pass", "fwd64-filter", "fwd64-syn", "fwd64-none", "rdns64-priv", "rdns64-off"}
 TRIVIAL = {"fwd"}
 
 
 def classify(rec):
-    return None  # no known findings for G01
+    """Narrow keys of the known findings."""
+    cfg, req = rec.get("cfg", {}), rec.get("req", {})
+    got = rec.get("got") or rec.get("out") or {}
+    # DNS64 was on under an earlier configuration of the same server and is off
+    # now, yet a DHCP lease still answers AAAA with a DNS64-mapped address.
+    if (cfg.get("dns64") == "off" and req.get("qt") == "AAAA" and got.get("c") == "aaaa" and got.get("fwd") == "none"
+            and (str(rec.get("how", "")).startswith("history-dependent") or "out" in rec)):
+        return "dns64-prefix-stale-after-disable"
+    return None
 
 
 def strip(o):
@@ -53,8 +62,13 @@ def trace_validate(ctx):
 
 
 def run(ctx):
-    cfgname = "DnsFront.quick.cfg" if ctx.quick else "DnsFront.thorough.cfg"
-    gen = ctx.tlc("DnsFront", cfgname, workers=6, timeout=600)
+    # Quick: one run of the quick universe with TLC's coverage on (vacuity of
+    # the actions); thorough: the full universe, and the quick one for coverage.
+    if ctx.quick:
+        gen = cov = ctx.tlc("DnsFront", "DnsFront.quick.cfg", workers=6, timeout=600, coverage=True)
+    else:
+        gen = ctx.tlc("DnsFront", "DnsFront.thorough.cfg", workers=6, timeout=900)
+        cov = ctx.tlc("DnsFront", "DnsFront.quick.cfg", workers=4, timeout=600, coverage=True)
     vectors = gen["vectors"]
     reqsets, cfgs = {}, []
     for v in vectors:
@@ -66,13 +80,12 @@ def run(ctx):
         raise vlib.Inconclusive("too few vectors: %d configurations" % len(cfgs))
     # Vacuity: every action of the model taken (TLC's coverage), every clause
     # of the verdict present in the tables.
-    cov = ctx.tlc("DnsFront", "DnsFront.quick.cfg", workers=2, timeout=600, coverage=True)
     never = [l for l in cov.get("zero_cov", []) if "of module DnsFront:" in l or "of module DnsFront)" in l]
     acts = {}
     import re
     for m in re.finditer(r"^<(\w+) line \d+, col \d+ to line \d+, col \d+ of module DnsFront>: (\d+):(\d+)", cov["out"], re.M):
         acts[m.group(1)] = int(m.group(3))
-    for a in ("PickGroup", "ConfigureD", "ConfigureT"):
+    for a in ("PickGroup", "ConfigureD", "ConfigureT", "ConfigureN"):
         if acts.get(a, 0) == 0:
             raise vlib.Inconclusive("vacuous: action %s never taken (coverage: %s)" % (a, acts))
     whys, evals, nontrivial = {}, 0, set()
@@ -149,7 +162,8 @@ def replay(ctx, path):
         print("trace-line finding: re-run ./check G01 with the same VERIF_SEED to reproduce")
         return 1
     reqs = {"kind": "reqs", "set": "replay", "reqs": [rec["req"]]}
-    vec = {"kind": "cfg", "set": "replay", "cfg": rec["cfg"], "idx": [1], "tab": [rec["abstract_want"] if "abstract_want" in rec else rec["want"]]}
+    vec = {"kind": "cfg", "set": "replay", "cfg": rec["cfg"], "idx": [1], "tab": [rec["abstract_want"]],
+           "pre": rec.get("history") or []}
     rows, summ = replay_vectors(ctx, [reqs, vec], 1)
     bad = [r for r in rows if r.get("kind") == "bad"]
     print(json.dumps({"expected": rec["want"], "observed": [b["got"] for b in bad] or "admissible"}, indent=1))
